@@ -215,6 +215,55 @@ class A(Adapter):
     def end_cause(self, ps, action, s, ts, env, cfg):
         return "collision" if self._collision(ps, s) else None
 
+    # ---- reach probes ------------------------------------------------------------------------------
+    def events(self, ps, action, s, ts, env, cfg):
+        ag1, sh1 = self._agents(s), self._shelves(s)
+        if ps is None:
+            under = any(rq and (r, c) in {(x, y) for x, y, _, _ in ag1} for r, c, rq in sh1)
+            return ((["reset_multi_agent"] if len(ag1) > 1 else ["reset_single_agent"]) + (["reset_agent_under_requested_shelf"] if under else [])
+                    + (["reset_agent_carrying"] if any(a[3] for a in ag1) else []))
+        ag0, sh0 = self._agents(ps), self._shelves(ps)
+        hw = highways(cfg["sr"], cfg["sc"], cfg["h"])
+        shelf0 = {(r, c): rq for r, c, rq in sh0}
+        acts = [int(a) for a in action]
+        ev, target = [], []
+        for i, (r, c, d, carrying) in enumerate(ag0):
+            t, a = self._ahead(hw.shape, r, c, d), acts[i]
+            target.append((r, c))
+            if a == FORWARD:
+                if t is None:
+                    ev.append("forward_against_outer_wall")
+                elif carrying and t in shelf0:
+                    ev.append("carrying_agent_blocked_by_shelf")
+                else:
+                    target[i] = t
+                    ev.append("carried_shelf_moved" if carrying else "unloaded_agent_moves_under_shelf" if t in shelf0 else "unloaded_agent_moves_on_floor")
+            elif a == TOGGLE:
+                now = ag1[i][3]
+                if carrying:
+                    ev.append("shelf_put_down" if not now else "put_down_refused_on_highway" if hw[r, c] else "put_down_not_carried_out")
+                elif now:
+                    ev.append("requested_shelf_picked_up" if shelf0.get((r, c)) else "unrequested_shelf_picked_up")
+                else:
+                    ev.append("toggle_without_shelf" if (r, c) not in shelf0 else "pick_up_not_carried_out")
+        old = [(r, c) for r, c, _, _ in ag0]
+        pairs = [(i, j) for i in range(len(old)) for j in range(len(old)) if i != j]
+        if any(target[i] == target[j] for i, j in pairs):
+            ev.append("collision_two_agents_one_cell")
+        if any(target[i] == old[j] and target[j] == old[i] for i, j in pairs):
+            ev.append("collision_agents_swap_cells")
+        if any(target[i] != old[i] and target[i] == old[j] and target[j] not in (old[j], old[i]) for i, j in pairs):
+            ev.append("agent_enters_cell_another_is_leaving")
+        if self._collision(ps, s) and int(ts.step_type) == 2:
+            ev.append("end_agent_collision")
+        if float(np.asarray(ts.reward).sum()) > 0:
+            ev.append("shelf_delivered_reward")
+        if sum(1 for a in acts if a == FORWARD) >= 2:
+            ev.append("agents_moving_simultaneously_ge2")
+        if sum(1 for a in acts if a != NOOP) >= 2:
+            ev.append("agents_acting_simultaneously_ge2")
+        return ev
+
     # ---- C12 -------------------------------------------------------------------------------------
     def observe(self, s, obs, env, cfg):
         if int(obs.step_count) != int(s.step_count):
